@@ -192,6 +192,7 @@ def run(rep, tier, seed, only=None):
                      "Transformer.apply_transformers / __or__ / linearize_*", "cleanup", "Circuit.dfs, evaluate_circuit"]
     rep.bounds = {"circuits": "feature family + seeded DAGs <=5 inputs/<=10 gates (quick), <=6/<=14 (thorough), all gate types, arity<=4",
                   "passes": "5 basic passes, cleanup light/heavy, nested/2-/3-compositions by | and by list"}
+    rep.bounds['result edited afterwards'] = 'after every (circuit, pipeline) case the result is edited through public calls (mark_as_output, rename of an output and of an input) and the argument is compared with its snapshot again'
     rep.outside = ["circuits with more than 6 inputs for MergeEquivalentGates", "arity > 4"]
     rep.rule = "program = (circuit, pass pipeline); equivalence of every output decided by z3 over all inputs; interface/argument/size predicates concrete"
     rep.explanation = "translation validation of each pass application"
